@@ -19,3 +19,4 @@
 #include "c16.hpp"
 #include "c17.hpp"
 #include "c18.hpp"
+#include "c20.hpp"
